@@ -17,6 +17,11 @@
 (*            compression switched off for one), with and without control      *)
 (*            frames before and inside messages                                 *)
 (*   triple : every triple of a sub-menu of 5 steps                             *)
+(*   resid  : buffer sizes of every residue modulo 8 (the library's client     *)
+(*            fragments a message at exactly the buffer size, so the lengths   *)
+(*            of its fragments and their running sums take every residue       *)
+(*            modulo the masking-key length 4 and the word size 8 only if the  *)
+(*            buffer size does) x API x messages of 2..6 fragments             *)
 (*   big    : (thorough) multi-megabyte messages                                *)
 (*   rand   : (thorough) seeded random partitions                               *)
 (*   walk   : (thorough, simulation) sessions of WalkLen messages built step by *)
@@ -31,6 +36,8 @@ CONSTANTS
   XCompCfgs,
   MultiBufSizes, \* buffer sizes of the multi-message families
   MultiCompCfgs,
+  ResidBufSizes, \* buffer sizes of the resid family
+  ResidCompCfgs,
   BigSizes, RandSizes, RandCalls,
   WalkLen
 
@@ -67,6 +74,14 @@ PartsFor(api, n, bs) == IF n < MinSize(api) THEN {}
                         ELSE IF api \in Streaming THEN Partitions(n, bs) ELSE {One(n)}
 SingleSteps(bs) ==
   UNION {{StepOf(api, TypeFor(api, n, p), n, 1, p) : p \in PartsFor(api, n, bs)} : api \in APIs, n \in Sizes(bs)}
+
+\* resid: messages of two to six fragments of bs octets, the last one full, short or of another residue
+ResidSizes(bs) == {2 * bs, 2 * bs + 1, 3 * bs + 5, 5 * bs + 3}
+ResidParts(n, bs) ==
+  {p \in {One(n), <<<<bs + 1, 1>>, <<n - bs - 1, 1>>>>, <<<<3, 1>>, <<n - 3, 1>>>>} : \A q \in 1..Len(p) : p[q][1] >= 0}
+ResidSteps(bs) ==
+  UNION {{StepOf(api, TypeFor(api, n, p), n, 1, p) : p \in (IF api \in Streaming THEN ResidParts(n, bs) ELSE {One(n)})} :
+         api \in APIs, n \in ResidSizes(bs)}
 
 \* the menu of the multi-message families
 Menu(bs) == <<
@@ -110,6 +125,9 @@ Single == \E bs \in BufSizes, r \in Roles, cc \in ({Off} \cup CompCfgs) : \E st 
 XSingle == \E bs \in XBufSizes, r \in Roles, cc \in ({Off} \cup XCompCfgs) : \E st \in SingleSteps(bs) :
              ses = Session("single", r, cc, bs, <<st>>)
 
+Resid == \E bs \in ResidBufSizes, r \in Roles, cc \in ({Off} \cup ResidCompCfgs) : \E st \in ResidSteps(bs) :
+           ses = Session("resid", r, cc, bs, <<st>>)
+
 Pair == \E e \in MultiEnvs, a \in 1..8, b \in 1..8, ctl \in BOOLEAN :
           LET st == Renumber(<<Menu(e[3])[a], Menu(e[3])[b]>>)
           IN ses = [Session("pair", e[1], e[2], e[3], IF ctl THEN WithCtl(st) ELSE st) EXCEPT !.over = ctl]
@@ -126,6 +144,7 @@ Rand == \E e \in MultiEnvs, api \in Streaming, n \in RandSizes, calls \in RandCa
 
 \* ------------------------------------------------------------- transitions
 Init == \/ "single" \in Families /\ (Single \/ XSingle)
+        \/ "resid"  \in Families /\ Resid
         \/ "pair"   \in Families /\ Pair
         \/ "triple" \in Families /\ Triple
         \/ "big"    \in Families /\ Big
